@@ -4,8 +4,10 @@ package main
 
 import (
 	"bufio"
+	"context"
 	"fmt"
 	"io"
+	"os"
 	"os/exec"
 	"strconv"
 	"strings"
@@ -37,6 +39,9 @@ type Solver struct {
 	nSat, nUnsat, nUnknown int
 	solveTime              time.Duration
 	lastQuery              string
+	label                  string
+	alt                    string
+	nAlt                   int
 }
 
 func NewSolver(bin string, timeoutMs int) *Solver {
@@ -74,7 +79,7 @@ func (s *Solver) Close() {
 }
 
 func (s *Solver) send(line string) {
-	if s.keepLog && s.log != nil && s.log.Len() < 1<<20 {
+	if s.log != nil && s.log.Len() < 16<<20 {
 		s.log.WriteString(line)
 		s.log.WriteString("\n")
 	}
@@ -85,15 +90,49 @@ func (s *Solver) send(line string) {
 
 type solverDied struct{ msg string }
 
+// retryAlt re-decides the current query (context + pending push) on the alternate solver.
+func (s *Solver) retryAlt() Result {
+	var sb strings.Builder
+	for _, line := range strings.Split(s.log.String(), "\n") {
+		if strings.HasPrefix(line, "(check-sat") || strings.HasPrefix(line, "(get-value") || strings.HasPrefix(line, "(reset") {
+			continue
+		}
+		sb.WriteString(line)
+		sb.WriteString("\n")
+	}
+	sb.WriteString("(check-sat)\n")
+	ctx, cancel := context.WithTimeout(context.Background(), time.Duration(s.timeoutMs+5000)*time.Millisecond)
+	defer cancel()
+	cmd := exec.CommandContext(ctx, s.alt, "-in")
+	cmd.Stdin = strings.NewReader(sb.String())
+	out, _ := cmd.Output()
+	s.nAlt++
+	txt := strings.TrimSpace(string(out))
+	if strings.Contains(txt, "(error") {
+		return RUnknown
+	}
+	lines := strings.Split(txt, "\n")
+	switch strings.TrimSpace(lines[len(lines)-1]) {
+	case "sat":
+		// a model is needed from the primary; report unknown unless primary can produce it
+		return RUnknown
+	case "unsat":
+		return RUnsat
+	}
+	return RUnknown
+}
+
+
+var slowN int
+
+
 // Reset starts a fresh context for a new run.
 func (s *Solver) Reset() {
 	if s.cmd == nil {
 		s.start()
 	}
 	s.emitted = map[int]bool{}
-	if s.keepLog {
-		s.log = &strings.Builder{}
-	}
+	s.log = &strings.Builder{}
 	s.send("(reset)")
 	if !strings.Contains(s.bin, "cvc5") {
 		s.send(fmt.Sprintf("(set-option :timeout %d)", s.timeoutMs))
@@ -215,7 +254,17 @@ func (s *Solver) Check(extra *Term) Result {
 		}
 		break
 	}
+	if r == RUnknown && s.alt != "" && s.log != nil && s.log.Len() < 16<<20 {
+		r = s.retryAlt()
+	}
 	s.solveTime += time.Since(start)
+	if d := time.Since(start); d > 3*time.Second && os.Getenv("VERIF_DEBUG") != "" {
+		fmt.Fprintf(os.Stderr, "slow query %.1fs [%s] -> %v\n", d.Seconds(), s.label, r)
+		if s.log != nil {
+			slowN++
+			os.WriteFile(fmt.Sprintf("/tmp/slow-%d-%d.smt2", os.Getpid(), slowN), []byte(s.log.String()), 0o644)
+		}
+	}
 	switch r {
 	case RSat:
 		s.nSat++
